@@ -807,6 +807,8 @@ class Unit:
             # The resulting quantity may get quantized. Therefore we
             # have to calculate the final amount before creating the result!
             amnt, unit = self * other.unit
+            if unit is None:    # dimensions cancel => plain number
+                return other.amount * amnt
             return (other.amount * amnt) * unit
         return NotImplemented
 
@@ -1632,11 +1634,15 @@ class Quantity(metaclass=QuantityMeta):
             # The resulting quantity may get quantized. Therefore we
             # have to calculate the final amount before creating the result!
             amnt, unit = self.unit * other.unit
+            if unit is None:    # dimensions cancel => plain number
+                return self.amount * other.amount * amnt
             return (self.amount * other.amount * amnt) * unit
         if isinstance(other, Unit):
             # The resulting quantity may get quantized. Therefore we
             # have to calculate the final amount before creating the result!
             amnt, unit = self.unit * other
+            if unit is None:    # dimensions cancel => plain number
+                return self.amount * amnt
             return (self.amount * amnt) * unit
         if isinstance(other, Real):
             return self.__class__(self.amount * Decimal(other), self.unit)
